@@ -20,6 +20,7 @@ func (g *EvGen) nextSortable(ts int64) *Event {
 	parts := []string{`"vid":` + w.scalar("vid", 's', vid), fmt.Sprintf(`"timestamp":%d`, ts)}
 	add := func(k, v string) { parts = append(parts, jsonStr(k)+":"+v) }
 	add("a", w.scalar("a", 'n', strconv.Itoa(r.IntN(40)-20)))
+	add("c", w.scalar("c", 'n', strconv.Itoa(r.IntN(3)))) // three values: long runs of equal first keys
 	base := []float64{1000, 1000.00001, 1000.00002, 999.99999, -5.5, 0.25, 123456.789}[r.IntN(7)]
 	add("b", w.scalar("b", 'n', strconv.FormatFloat(base+float64(r.IntN(3))*0.00001, 'f', -1, 64)))
 	add("s", w.scalar("s", 's', []string{"apple", "Apple", "banana", "cherry", "apple pie", "b", "zz", "x10", "x9", "a1"}[r.IntN(10)]+strconv.Itoa(r.IntN(3))))
@@ -31,6 +32,7 @@ type OrdSpec struct {
 	Kind string   `json:"kind"` // default | head | sort | page
 	N    int      `json:"n,omitempty"`
 	Keys []SortKey `json:"keys,omitempty"`
+	Lim  int      `json:"lim,omitempty"` // sort: explicit `sort <lim> ...` (0 = none; the response size limits instead)
 	Page int      `json:"page,omitempty"`
 	Of   int      `json:"of,omitempty"` // page: total matches expected
 }
@@ -59,12 +61,15 @@ func (o OrdSpec) Text() string {
 			}
 			ks = append(ks, s)
 		}
+		if o.Lim > 0 {
+			return fmt.Sprintf("* | sort %d %s", o.Lim, strings.Join(ks, ", "))
+		}
 		return "* | sort " + strings.Join(ks, ", ")
 	}
 	return "*"
 }
 
-func genOrderQueries(r *rand.Rand, index string, total int) []plan.Op {
+func genOrderQueries(r *rand.Rand, index string, total int, indexed []string) []plan.Op {
 	var ops []plan.Op
 	mk := func(o OrdSpec, size, from int) {
 		sb, _ := json.Marshal(o)
@@ -81,24 +86,54 @@ func genOrderQueries(r *rand.Rand, index string, total int) []plan.Op {
 	// sorts
 	for i := 0; i < 2; i++ {
 		var keys []SortKey
-		fields := []string{"a", "b", "s"}
-		r.Shuffle(3, func(x, y int) { fields[x], fields[y] = fields[y], fields[x] })
+		fields := []string{"a", "b", "s", "c"}
+		r.Shuffle(4, func(x, y int) { fields[x], fields[y] = fields[y], fields[x] })
+		if r.IntN(3) == 0 && fields[0] != "c" {
+			// a first key with few distinct values: the second key decides within long groups of ties
+			for x := range fields {
+				if fields[x] == "c" {
+					fields[0], fields[x] = fields[x], fields[0]
+				}
+			}
+		}
 		for j := 0; j < 1+r.IntN(2); j++ {
 			f := fields[j]
 			mode := ""
 			switch f {
-			case "a", "b":
+			case "a", "b", "c":
 				mode = []string{"", "num", "auto"}[r.IntN(3)]
 			case "s":
 				mode = []string{"", "str"}[r.IntN(2)]
 			}
 			keys = append(keys, SortKey{Field: f, Mode: mode, Desc: r.IntN(2) == 0})
 		}
+		deep := false
+		if len(indexed) > 0 && r.IntN(2) == 0 {
+			// answered from the sort index: first key = an indexed column, a second key that the index knows
+			// nothing about, and a limit that reaches into the last groups of equal first keys
+			second := fields[0]
+			if second == indexed[0] {
+				second = fields[1]
+			}
+			keys = []SortKey{{Field: indexed[0], Desc: r.IntN(2) == 0}, {Field: second, Desc: r.IntN(2) == 0}}
+			deep = true
+		}
 		sz := total + 50
 		if r.IntN(2) == 0 {
 			sz = 1 + r.IntN(total+1)
+			if r.IntN(3) == 0 {
+				sz = 1 + r.IntN(6) // a limit inside one group of equal first keys
+			}
 		}
-		mk(OrdSpec{Kind: "sort", Keys: keys, N: sz}, sz, 0)
+		if deep && total > 3 {
+			sz = total - r.IntN(total/3+1)
+		}
+		if sz <= total && (deep || r.IntN(2) == 0) {
+			// the limit as part of the command (`sort 5 +a, -b`): the response size does not cut
+			mk(OrdSpec{Kind: "sort", Keys: keys, N: sz, Lim: sz}, total+50, 0)
+		} else {
+			mk(OrdSpec{Kind: "sort", Keys: keys, N: sz}, sz, 0)
+		}
 	}
 	// paging through the static match-all result
 	if total > 0 {
@@ -296,7 +331,7 @@ func init() {
 	register(&Check{
 		ID:    "C05",
 		Level: "exploration",
-		Rule: "each case is one seeded history of the 'sortable' family (out-of-order arrival, timestamp ties, overlapping block and segment time ranges, duplicate and <1e-4-apart sort values) with flush / rotation / idle-timer / restart steps; after every flush-completing step: a size-limited match-all, `head n`, two `sort` specifications (num/str/auto, asc/desc, one or two keys, with and without a limit) and a from/size paging sequence are checked against the order model. distinct = distinct (operation shape, knobs, query texts and sizes); non-trivial = at least two flushed blocks",
+		Rule: "each case is one seeded history of the 'sortable' family (out-of-order arrival, timestamp ties, overlapping block and segment time ranges, duplicate and <1e-4-apart sort values) with flush / rotation / idle-timer / restart steps, half of them with sort indexes configured on one or two sort-key fields; after every flush-completing step: a size-limited match-all, `head n`, two `sort` specifications (num/str/auto, asc/desc, one or two keys, with and without a limit) and a from/size paging sequence are checked against the order model. distinct = distinct (operation shape, knobs, query texts and sizes); non-trivial = at least two flushed blocks",
 		Run: func(c *Ctx) {
 			n := 120
 			if !c.Quick() {
@@ -308,8 +343,19 @@ func init() {
 			}
 			c.Explore(n, func(r *rand.Rand, i int) *plan.Plan {
 				oo := o
-				oo.queries = func(ix string, n int) []plan.Op { return genOrderQueries(r, ix, n) }
-				return genHistory(r, oo)
+				// half of the histories build sort indexes (POST /api/sort-columns before any data) on one to three of
+				// the sort-key fields: `sort` on an indexed first key is answered from the per-segment sort index
+				var sortCols map[string][]string
+				if r.IntN(2) == 0 {
+					sortCols = map[string][]string{}
+					for i := 0; i < oo.maxIdx; i++ {
+						sortCols[fmt.Sprintf("ix%dsortable", i)] = [][]string{{"a"}, {"b"}, {"s"}, {"c"}, {"a", "s"}, {"b", "a"}, {"c", "a"}, {"c", "s", "b"}}[r.IntN(8)]
+					}
+				}
+				oo.queries = func(ix string, n int) []plan.Op { return genOrderQueries(r, ix, n, sortCols[ix]) }
+				p := genHistory(r, oo)
+				p.Knobs.SortCols = sortCols
+				return p
 			}, func(res *RunResult) (string, bool, any) {
 				key, nt, sample := histShape(res)
 				var qs []string
